@@ -4,10 +4,10 @@ sys.path.insert(0, "/verif/harness/props")
 from common import *
 import impl, gens, l0, peg, lexer
 
-THMS = ["C09_layout_invariance", "C09_all_queries_commute", "C09_case_invariance", "C09_plain_sequence_refuted"]
+THMS = ["C09_layout_invariance", "C09_all_queries_commute", "C09_case_invariance", "C09_fuel_independent", "C09_plain_sequence_refuted"]
 HEADER = ("From Coq Require Import List NArith Bool.\nFrom MoSql Require Import Model.Peg Model.PegRun Model.PegSim Generated.Grammar.\nImport ListNotations.\nLocal Open Scope N_scope.\n")
 FILL_WS = ["  ", "\n", "\t", " \n ", "\r\n", "\n\n\t"]
-FILL_CM = [" /* c */ ", " -- c\n", " # c\n", "/**/"]
+FILL_CM = [" /* c */ ", " -- c\n", " # c\n", "/**/", "--c\n", "#c\n", " /*c*/", " --\n", "\t/* a\nb */\n"]
 SITES_FILE = "/verif/corpus/c09_plain_sites.json"
 TABLES = {"common_parser": "common", "mysql_parser": "mysql", "sqlserver_parser": "sqlserver", "bigquery_parser": "bigquery"}
 
@@ -115,6 +115,7 @@ def pool(ctx, rnd, n):
     import c19
     g = gens.G(rnd)
     g.mark_as = True
+    g.accessors = True
     d = c19.D(rnd)
     out = []
     for i in range(n):
@@ -167,7 +168,7 @@ def work(job):
                 unexplained.append(dict(variation="optional AS", sql=other.base, variant=lay.base))
         variants = []
         for k in lay.open:
-            fills = FILL_WS + FILL_CM if tier != "quick" else rnd.sample(FILL_WS, 2) + rnd.sample(FILL_CM, 2)
+            fills = FILL_WS + FILL_CM if tier != "quick" else rnd.sample(FILL_WS, 2) + rnd.sample(FILL_CM, 3)
             for f in fills:
                 variants.append(({k: f}, "gap"))
         for _ in range(3):
